@@ -163,7 +163,7 @@ CondFail(P, ln) ==
          ELSE IF got \notin exp THEN
               (IF got = 412 THEN "X02.spurious_412"
                ELSE IF got = 304 THEN (IF c.m \in Safe THEN "X02.spurious_304" ELSE "X02.unsafe_304")
-               ELSE IF 412 \in exp THEN "X02.missed_412" ELSE "X02.missed_304")
+               ELSE IF 304 \in exp THEN "X02.missed_304" ELSE "X02.missed_412")
          ELSE IF P.last # got THEN "X02.status_mismatch"
          ELSE IF got = 304 THEN
               (IF ln.body # "none" THEN "X02.not_modified_body"
